@@ -20,6 +20,8 @@ CONSUMERS = re.compile(r"ops::Try::branch$|Result::<T, E>::(map|map_err|and_then
                        r"iter::Iterator|FromIterator|convert::From::from$|convert::Into::into$")
 TESTERS = re.compile(r"Result::<T, E>::(is_ok|is_err|ok|err)$")
 PANICKERS = re.compile(r"Result::<T, E>::(unwrap|expect|unwrap_err|expect_err)$")
+# combinators that turn `Err(e)` into an ordinary value and forget e: a failed read becomes "0", a failed parse "the default"
+DEFAULTERS = re.compile(r"Result::<T, E>::(unwrap_or|unwrap_or_default|unwrap_or_else|map_or|map_or_else|is_ok_and|is_err_and)$")
 
 REVIEWED_DROPRES = {
     "write::<impl std::ops::Drop for write::zip_writer::ZipWriter<W>>::drop|write_fmt|discarded":
@@ -117,7 +119,9 @@ def dropres_rules(facts, rep, reach):
                         kinds.append("wrapped")
                     elif k == "arg":
                         c2 = node.get("callee") or ""
-                        if TESTERS.search(c2):
+                        if DEFAULTERS.search(c2):
+                            kinds.append("defaulted:" + c2.split("::")[-1])
+                        elif TESTERS.search(c2):
                             kinds.append("tested:" + c2.split("::")[-1])
                         elif PANICKERS.search(c2):
                             kinds.append("unwrapped")
@@ -129,6 +133,16 @@ def dropres_rules(facts, rep, reach):
                 rep.ok(rule, "%s|%s@bb" % (f.path, nm), w, "result of %s is %s" % (nm, "/".join(sorted(set(handled)))), trivial=True)
                 continue
             tested = [k for k in kinds if k.startswith("tested:")]
+            dflt = [k for k in kinds if k.startswith("defaulted:")]
+            if dflt:
+                key = "%s|%s|defaulted" % (f.path, nm)
+                if key in REVIEWED_DROPRES:
+                    rep.reviewed(rule, key, w, "reviewed: " + REVIEWED_DROPRES[key])
+                else:
+                    ok = False
+                    rep.violation(rule, key, w, "the Result of %s goes into %s(): an I/O failure here silently becomes an ordinary value (a default field, "
+                                  "an empty list) and the call reports success with different content" % (cal, dflt[0].split(":")[1]))
+                continue
             if tested:
                 # converted to an error?  the failing edge must construct an Err
                 conv = False
